@@ -243,9 +243,27 @@ var EvoEdits = []EvoEdit{
 	{"change-numeric-primitive", "warning", func(t *rapid.T, p *Package, env *Env) (string, bool) {
 		var c []fieldPos
 		// the primitive itself, or the primitive inside one optional or vector ("recursively detects changes")
+		// ... or inside two of them (a vector of optionals, an optional vector, a vector of vectors)
+		var descend func(x *Type, depth int) (*Type, func(*Type) *Type)
+		descend = func(x *Type, depth int) (*Type, func(*Type) *Type) {
+			if x == nil {
+				return nil, nil
+			}
+			if x.Kind == KPrim {
+				return x, func(n *Type) *Type { return n }
+			}
+			if depth < 2 && (x.Kind == KOptional || x.Kind == KVector) {
+				leaf, rb := descend(x.Elem, depth+1)
+				if leaf == nil {
+					return nil, nil
+				}
+				return leaf, func(n *Type) *Type { cp := *x; cp.Elem = rb(n); return &cp }
+			}
+			return nil, nil
+		}
 		inner := func(x *Type) *Type {
-			if (x.Kind == KOptional || x.Kind == KVector) && x.Elem != nil && x.Elem.Kind == KPrim {
-				return x.Elem
+			if leaf, _ := descend(x, 0); leaf != nil {
+				return leaf
 			}
 			return x
 		}
@@ -272,13 +290,8 @@ var EvoEdits = []EvoEdit{
 			}
 		}
 		defer func(from string) { lastNumericChange = from + "->" + np.Prim }(inner(cur).Prim)
-		if cur.Kind == KPrim {
-			set(np)
-		} else {
-			cp := *cur
-			cp.Elem = np
-			set(&cp)
-		}
+		_, rebuild := descend(cur, 0)
+		set(rebuild(np))
 		return fp.Def.Name + "." + fp.Def.Fields[fp.Idx].Name, true
 	}},
 	{"number-to-string", "warning", func(t *rapid.T, p *Package, env *Env) (string, bool) {
